@@ -218,22 +218,22 @@ func Targets(s *ref.Schema, all bool) []reflect.Type {
 		// nothing is stored: any destination will do; a pointer shows most (it must stay nil)
 		return one(ptr(reflect.TypeOf(int64(0))), reflect.TypeOf(""))
 	case "boolean":
-		return one(reflect.TypeOf(false), gv.NullBoolT, ptr(reflect.TypeOf(false)))
+		return one(reflect.TypeOf(false), gv.NullBoolT, ptr(reflect.TypeOf(false)), ptr(gv.NullBoolT))
 	case "int", "long":
 		if s.Logical != "" {
 			return one(gv.TimeT, reflect.TypeOf(int64(0)), ptr(gv.TimeT))
 		}
 		i64 := reflect.TypeOf(int64(0))
-		return one(i64, reflect.TypeOf(int(0)), reflect.TypeOf(int32(0)), reflect.TypeOf(int16(0)), ptr(i64), ptr(ptr(i64)), gv.NullIntT)
+		return one(i64, reflect.TypeOf(int(0)), reflect.TypeOf(int32(0)), reflect.TypeOf(int16(0)), ptr(i64), ptr(ptr(i64)), gv.NullIntT, ptr(gv.NullIntT))
 	case "float":
-		return one(reflect.TypeOf(float32(0)), gv.NullFloatT, ptr(reflect.TypeOf(float32(0))))
+		return one(reflect.TypeOf(float32(0)), gv.NullFloatT, ptr(reflect.TypeOf(float32(0))), ptr(gv.NullFloatT))
 	case "double":
-		return one(reflect.TypeOf(float64(0)), reflect.TypeOf(float32(0)), ptr(reflect.TypeOf(float64(0))), gv.NullFloatT)
+		return one(reflect.TypeOf(float64(0)), reflect.TypeOf(float32(0)), ptr(reflect.TypeOf(float64(0))), gv.NullFloatT, ptr(gv.NullFloatT))
 	case "string":
 		if s.Logical == "x-rfc3339" {
 			return one(gv.TimeT, gv.NullTimeT, ptr(gv.TimeT), reflect.TypeOf(""))
 		}
-		return one(reflect.TypeOf(""), ptr(reflect.TypeOf("")), gv.NullStringT)
+		return one(reflect.TypeOf(""), ptr(reflect.TypeOf("")), gv.NullStringT, ptr(gv.NullStringT))
 	case "bytes":
 		return one(reflect.TypeOf([]byte(nil)), ptr(reflect.TypeOf([]byte(nil))))
 	case "fixed":
